@@ -633,3 +633,66 @@ func (h *msgHook) Fire(e *logrus.Entry) error {
 	}
 	return nil
 }
+
+// acceptOverflowRun (real time: the failure of interest is a goroutine taking a
+// mutex it already holds, which stops a bubble's clock instead of showing):
+// more handshakes complete than the accept queue holds while nobody accepts;
+// the server keeps serving, Accept hands out what was queued, Close returns.
+func acceptOverflowRun(r *vh.Runner, c *vh.Case, i int) {
+	rng := vh.NewRand(r.Seed, "c17-overflow", i)
+	cv := &transport.VerifyConfig{}
+	limit := 1 + rng.Intn(3)
+	w := fix.NewWorld(false, cv, func(sc *transport.ServerConfig) { sc.MaxPendingConnections = limit })
+	cv.Store = w.PKI.Store()
+	id := w.PKI.Issue(certs.RawStringName("client"))
+	n := limit + 1 + rng.Intn(4)
+	var clients []*transport.Client
+	completed := 0
+	for k := 0; k < n; k++ {
+		cl, _ := w.NewClient(id, rng.Chance(0.3), 2*time.Second)
+		clients = append(clients, cl)
+		if cl.Handshake() == nil {
+			completed++
+		}
+	}
+	time.Sleep(30 * time.Millisecond)
+	detail := map[string]any{"accept_queue": limit, "handshakes": n, "completed_at_clients": completed}
+	r.Count("evaluations", 1)
+	r.Count("accept_queue_overflows", 1)
+	r.Nontrivial(fmt.Sprintf("overflow|%d", i))
+	bounded := func(name string, d time.Duration, f func()) bool {
+		done := make(chan struct{})
+		go func() { f(); close(done) }()
+		select {
+		case <-done:
+			return true
+		case <-time.After(d):
+			same, dump := vh.StuckIn(3*time.Second, "transport.(*Server)")
+			if !same {
+				c.Inconclusive("real-time overflow case slow but still moving: " + name)
+				return false
+			}
+			detail["goroutine_dump"] = dump
+			c.Violate("C17:transport-call-never-returns:"+name+":after-accept-queue-overflow", detail)
+			return false
+		}
+	}
+	accepted := 0
+	ok := bounded("Server.AcceptTimeout", 10*time.Second, func() {
+		for {
+			if _, err := w.Server.AcceptTimeout(200 * time.Millisecond); err != nil {
+				return
+			}
+			accepted++
+		}
+	})
+	if ok {
+		detail["accepted"] = accepted
+		ok = bounded("Server.Close", 12*time.Second, func() { w.Server.Close() })
+	} else {
+		go w.Server.Close()
+	}
+	for _, cl := range clients {
+		go cl.Close()
+	}
+}
